@@ -113,7 +113,7 @@ LINTS = ("; shared shape lints on the property's anchor files (sa/lints.py): dea
          "subclass-preserving conversions followed by overloaded operators, NaN constants written into computations, unrestored process-wide settings, memoised accessors of "
          "mutable state, two-way selection by mask arithmetic over divisions, and the second lint module (sa/lints2.py): all() as a null test, shape-ambiguous transposition, "
          "column norms of row samples, tolerance null tests, patched zero norms, swallowed non-finite input and swallowed row exceptions, clamped arguments, writing validators, "
-         "mismatched None tests, dtype taken from an argument%s, early-return memo keys (CACHE-KEY.early) and values latched from the object's own data (LATCH.data), "
+         "mismatched None tests, dtype taken from an argument%s, early-return memo keys, tuple keys and memoised accessors of public configuration (CACHE-KEY.early/.tuple/.property), values latched from the object's own data or validated by buffer identity (LATCH.data/.identity), option strings folded by the constructor only (CASE-MIXED.ctor), positions of a mask-compressed copy applied to the full array (INDEX-SPACE), "
          "each with an embedded positive example that must fire on every run")
 EXTRA = {
  "C01": "; IDENT.rotate on 3-by-N column arrays",
@@ -129,7 +129,7 @@ EXTRA = {
  "C11": "; BUFFER-LAYOUT (the buffer handed to ndarray.__new__ is provably C-contiguous float64) and REAL-GATE (the shared validator admits real dtypes only); SHADOW-INIT also for view-cast construction",
  "C12": "; value-number form of the NaN-interval split; ownership rule on the interpolation helpers; NANFILL.empty must-fact, NANFILL.mask (rows with any NaN component), NANFILL.options (slerp's own defaults); NANFILL.sample and TWIN.jumps.sample (interpretation with recorders / on sign patterns)",
  "C13": "; DROPOUT-EXIT (zero side of every sample-norm test raises or returns); RECOMPUTED rule; axis-aware norm value numbers; one-level continuation into private helpers with the caller's value numbers and facts; ROLEQ.attitude_propagation discharges the unit assumption of the dropout arm; dead-reckoning obligations shared with C08; SEED-GUARD (call-graph rule: the producer of the initial attitude of every batch method is null-safe, its None answer is tested, or every per-sample consumer validates its a-priori quaternion first)",
- "C14": "; RELOAD must-call rule shared with C15; TABLE.header on a synthetic coefficient file",
+ "C14": "; RELOAD must-call rule shared with C15; TABLE.header on a synthetic coefficient file; POLE-EXACT (the unverified polar special case of magnetic_field is guarded by the exact test only)",
  "C15": "; KEEP-DATE (date=None reload is the identity on the date state); MODULE-STATE lint",
  "C16": "; CTOR-ACCEPT (no rejection decided by the sign of w), PIZZETTI on every equality-guarded degenerate arm; every inequality-guarded arm of normal_gravity returns the same closed form; LIMIT (sphere arm is the f -> 0 limit of the general arm, on the extracted closed forms); INHERIT (decided members not overridden by subclasses; instance-independent returns); clip transparency with symbolic bounds; SOMIGLIANA.sphere; GATE.ellipsoid (no tolerance comparison on the ellipsoid's parameters in a decided member)",
  "C17": "; GEODETIC.forward / GEODETIC.angles / ITER-TEST; FIXPOINT obligation on the converged state of the latitude iteration; unit-aware modulo (x % m is a whole number of turns only in x's own angle unit); ORIGIN-DIV must-fact rule on the local-level conversions",
